@@ -538,9 +538,16 @@ func (w *world) checkAll() []*violation {
 		uBytes, _ := classes(uPool, w.bytewise)
 		uKey, _ := classes(uPool, w.byKeyText)
 		numCross := w.c.L.fam == "num" && w.c.L.ddl != w.c.R.ddl && len(uKey) != len(uCls)
+		// set operations hash rows without the column types (C07-distinct-collation); between two
+		// *different* string types the planner moreover wraps both sides in CONVERT(x, CHAR), which
+		// drops the collation (C07-setop-convert-collation). Same prediction: equality by bytes.
+		setID := "C07-distinct-collation"
+		if w.c.L.ddl != w.c.R.ddl {
+			setID = "C07-setop-convert-collation"
+		}
 		for _, op := range []string{"UNION", "INTERSECT", "INTERSECT ALL", "EXCEPT", "EXCEPT ALL"} {
 			v := w.opSet(op, uCls)
-			v = w.known("C07-distinct-collation", strFam && clash, v, func() *violation { return w.opSet(op, uBytes) })
+			v = w.known(setID, strFam && clash, v, func() *violation { return w.opSet(op, uBytes) })
 			v = w.known("C07-setop-decimal-scale", numCross, v, func() *violation { return w.opSet(op, uKey) })
 			add(v)
 		}
